@@ -3,6 +3,7 @@ package gateway
 import (
 	"errors"
 	"fmt"
+	"strings"
 
 	"github.com/vektah/gqlparser/v2"
 	"github.com/vektah/gqlparser/v2/ast"
@@ -777,6 +778,20 @@ func (p *MinQueriesPlanner) generateScrubFields(plans QueryPlanList) error {
 			for field, values := range childScrubs {
 				fieldsToScrub[field] = append(fieldsToScrub[field], values...)
 			}
+		}
+
+		// several steps can be inserted at the same point but the field must only be scrubbed from it once
+		for field, locations := range fieldsToScrub {
+			seen := Set{}
+			unique := [][]string{}
+			for _, location := range locations {
+				key := strings.Join(location, "\x00")
+				if !seen.Has(key) {
+					seen.Add(key)
+					unique = append(unique, location)
+				}
+			}
+			fieldsToScrub[field] = unique
 		}
 
 		plan.FieldsToScrub = fieldsToScrub
